@@ -112,9 +112,138 @@ fn audit_panic_sites(s: &mut Session) {
     s.oracle_only("static audit: unwrap/expect/panic!/assert sites of progress_bar.rs state.rs multi.rs draw_target.rs".into(), true);
 }
 
+// ------------------------------------------------------------------ static audit of index / arithmetic sites
+/// The function bodies coq/model/SysPanic.v transcribes (second audit m8: the `psite` inventory is
+/// manual; this scan makes a NEW slice/Vec index or unchecked `+`/`-` in those bodies visible).
+const MODELLED_FNS: &[(&str, &[&str])] = &[
+    ("multi.rs", &["insert_before", "insert_after", "remove", "internalize", "println", "suspend", "clear", "mark_zombie", "draw", "draw_state", "insert", "remove_idx", "len", "width"]),
+    ("state.rs", &["finish_using_style", "tick", "update_estimate_and_draw", "println", "suspend", "draw", "drop"]),
+    ("draw_target.rs", &["width", "mark_zombie", "drawable", "disconnect", "remote", "adjust_last_line_count", "last_line_count", "state", "clear", "draw", "drop", "draw_to_term", "reset", "visual_line_count", "saturating_add", "saturating_sub", "as_usize", "add", "add_assign", "sub", "from", "wrapped_height", "console_width"]),
+];
+
+/// (file, whitespace-normalised code line, verdict): every line of a modelled body that indexes a
+/// Vec/slice or uses an unchecked `+`, `-`, `+=`, `-=`; the verdict names the `psite` constructor
+/// of SysPanic.v or says why the operation is total
+const AUDITED_IDX_ARITH: &[(&str, &str, &str)] = &[
+    ("multi.rs", "let member = &mut self.members[index];", "psite P_mark_members_index"),
+    ("multi.rs", "let member = &self.members[index];", "psite P_draw_scan_index"),
+    ("multi.rs", "let member = &self.members[*index];", "psite P_draw_compose_index"),
+    ("multi.rs", "draw_state.lines.extend_from_slice(&state.lines[..]);", "total: full range"),
+    ("multi.rs", "self.members[idx] = MultiStateMember::default();", "psite P_insert_free_index (insert) / P_remove_members_index (remove_idx)"),
+    ("multi.rs", "self.members.len() - 1", "total: right after a push"),
+    ("multi.rs", "self.ordering.insert(pos + 1, idx);", "total: pos < len from position(); Vec::insert panics only above len"),
+    ("multi.rs", "self.members.len() - self.free_set.len()", "psite P_len_sub"),
+    ("draw_target.rs", "if i + 1 != n {", "total: i < n"),
+    ("draw_target.rs", "MultiProgressAlignment::Bottom if full_height < *bar_count => *bar_count - full_height,", "psite P_dt_shift_sub"),
+    ("draw_target.rs", "for _ in 0..shift.as_usize() - usize::from(full_screen_padding) {", "psite P_dt_pad_sub (fix 881c313)"),
+    ("draw_target.rs", "real_height += line_height;", "psite P_dt_real_add"),
+    ("draw_target.rs", "if idx + 1 == self.lines.len() || (idx == 0 && line.console_width() == 0) {", "total: idx < lines.len()"),
+    ("draw_target.rs", "*bar_count = real_height + shift;", "psite P_dt_count_add"),
+    ("draw_target.rs", "visual_line_count(&self.lines[range], width)", "total: only ever called with the full range `..`"),
+    ("draw_target.rs", "Self(self.0 + rhs.0)", "the Add impl behind P_dt_count_add"),
+    ("draw_target.rs", "self.0 += rhs.0;", "the AddAssign impl behind P_dt_real_add (and, before fix f8fa07f, P_draw_adjust_add)"),
+    ("draw_target.rs", "Self(self.0 - rhs.0)", "the Sub impl behind P_dt_shift_sub"),
+];
+
+fn strip_strings(code: &str) -> String {
+    let mut out = String::new();
+    let mut in_str = false;
+    let mut prev = ' ';
+    for c in code.chars() {
+        if c == '"' && prev != '\\' && prev != '\'' {
+            in_str = !in_str;
+            out.push('"');
+        } else if !in_str {
+            out.push(c);
+        }
+        prev = c;
+    }
+    out
+}
+
+fn has_index_or_arith(code: &str) -> bool {
+    let cs: Vec<char> = code.chars().collect();
+    for (i, &c) in cs.iter().enumerate() {
+        if c == '[' && i > 0 {
+            let p = cs[i - 1];
+            if p.is_alphanumeric() || p == '_' || p == ')' || p == ']' {
+                return true; // expr[..]: an index (macros have `!`, types `&`/`<`/space, attributes `#` before `[`)
+            }
+        }
+    }
+    let padded = format!(" {code} ");
+    [" + ", " - ", "+=", "-="].iter().any(|t| padded.contains(t))
+}
+
+fn audit_index_arith_sites(s: &mut Session) {
+    let repo = std::env::var("VERIF_REPO").unwrap_or_else(|_| "/repo".into());
+    let mut sites = 0;
+    for (file, fns) in MODELLED_FNS {
+        let src = match std::fs::read_to_string(format!("{repo}/src/{file}")) {
+            Ok(x) => x,
+            Err(e) => {
+                s.fail("source-unreadable", format!("{file}: {e}"), format!("static index/arith audit of {file}"));
+                continue;
+            }
+        };
+        let lines: Vec<&str> = src.lines().collect();
+        let end = lines.iter().position(|l| l.starts_with("mod tests") || l.starts_with("mod test ")).unwrap_or(lines.len());
+        let mut depth: i64 = 0; // brace depth inside a modelled fn (0 = outside)
+        let mut in_fn = false;
+        let mut seen_open = false;
+        for i in 0..end {
+            let code = strip_strings(lines[i].split("//").next().unwrap_or("").trim());
+            if !in_fn {
+                let is_start = fns.iter().any(|f| code.contains(&format!("fn {f}(")) || code.contains(&format!("fn {f}<")));
+                if !is_start {
+                    continue;
+                }
+                in_fn = true;
+                seen_open = false;
+                depth = 0;
+            }
+            // the signature (possibly several lines, up to and including the line of the opening
+            // brace) is not part of the body
+            let in_body = seen_open;
+            for c in code.chars() {
+                if c == '{' {
+                    depth += 1;
+                    seen_open = true;
+                } else if c == '}' {
+                    depth -= 1;
+                }
+            }
+            if in_body && has_index_or_arith(&code) {
+                sites += 1;
+                let norm = code.split_whitespace().collect::<Vec<_>>().join(" ");
+                let ok = AUDITED_IDX_ARITH.iter().any(|(f, t, _)| f == file && *t == norm);
+                if std::env::var("C18_LIST_SITES").is_ok() {
+                    println!("IDXARITH {file}:{} {} `{norm}`", i + 1, if ok { "ok" } else { "UNAUDITED" });
+                }
+                if !ok {
+                    s.fail(
+                        "unaudited-index-or-arith-site",
+                        format!("src/{file}:{}: `{norm}` indexes a Vec/slice or uses an unchecked +/- inside a function body that coq/model/SysPanic.v transcribes, and is not in the audited list (new psite?)", i + 1),
+                        format!("static index/arith audit of src/{file}:{}", i + 1),
+                    );
+                }
+            }
+            if seen_open && depth <= 0 {
+                in_fn = false;
+            }
+        }
+    }
+    s.count_n("static_index_arith_sites_audited", sites);
+    s.oracle_only("static audit: Vec/slice index and unchecked +/- sites in the function bodies transcribed by coq/model/SysPanic.v (multi.rs state.rs draw_target.rs)".into(), true);
+}
+
 // ------------------------------------------------------------------ generators
+/// terminal sizes of the fault sweep: degenerate widths (0 = a terminal reporting no columns) and
+/// heights lower than the frames included
+const WIDTHS: [u16; 7] = [0, 1, 2, 3, 7, 20, 80];
+const HEIGHTS: [u16; 6] = [1, 2, 3, 5, 10, 30];
 fn gen_single(r: &mut Rng) -> Case {
-    let w = *r.pick(&[3u16, 5, 10, 40]);
+    let w = *r.pick(&WIDTHS);
     let wu = w as usize;
     let bar = BarInit {
         len: if r.chance(1, 4) { None } else { Some(r.below(50)) },
@@ -148,7 +277,7 @@ fn gen_single(r: &mut Rng) -> Case {
     if r.chance(1, 2) {
         ops.push((t + 1, Op::Drop(0)));
     }
-    Case { w, h: 30, fail_at: vec![], fail_from: None, mp: TInit::Hidden, bars: vec![bar], ops }
+    Case { w, h: *r.pick(&HEIGHTS), fail_at: vec![], fail_from: None, mp: TInit::Hidden, bars: vec![bar], ops }
 }
 
 fn gen_multi(r: &mut Rng) -> Case {
@@ -159,8 +288,8 @@ fn gen_multi(r: &mut Rng) -> Case {
     cfg.w_finish = 15;
     cfg.w_struct = 20;
     cfg.hz = *r.pick(&[None, None, Some(20u8)]);
-    cfg.widths = vec![3, 8, 20];
-    cfg.heights = vec![30];
+    cfg.widths = WIDTHS.to_vec();
+    cfg.heights = HEIGHTS.to_vec();
     let mut c = gen_multi_case(r, &cfg);
     // set_tab_width on a member was one of the D10 sites
     if let Some(b) = c.ops.iter().find_map(|(_, o)| if let Op::Insert(_, b) = o { Some(*b) } else { None }) {
@@ -473,8 +602,9 @@ fn main() {
     let a = args();
     let mut s = Session::new(&a, "C18", COQ_HEADER, COQ_CASE_TY, COQ_CHECKER);
     s.shard_size = 150;
-    s.rule = "histories (single bar on a terminal incl. println/suspend/set_tab_width/finish/drop; MultiProgress histories with add/insert/remove, println/suspend/clear of bars and of the MultiProgress, finishes and drops); for each history the fault-free run, then for EVERY k below its number of TermLike calls (sampled above the cap) the runs 'only call k fails' and 'all calls from k on fail' on fresh objects; oracle: no panic, getters equal the fault-free twin after every op, mp.println/clear Err iff one of their own calls failed, final round of calls on every bar and the MultiProgress works, drops do not panic; a sample of the faulty runs is compared with the model (sys_check with fail_at/fail_from); the injected io::ErrorKind rotates through Interrupted/WouldBlock/BrokenPipe/Other/TimedOut/UnexpectedEof (recorded in the case text); per history and kind one run in which EVERY flush fails (>= 3 consecutive failing flushes); 36 real-time steady-ticker scenarios (terminal fails for a window, then recovers: frames must arrive again and a later inc must be painted); non-trivial = at least one failure was injected; distinct = distinct case text; plus the static audit of unwrap/expect/panic sites".into();
+    s.rule = "terminal widths 0/1/2/3/7/20/80 x heights 1/2/3/5/10/30 (histogram W:/H: in the distribution); histories (single bar on a terminal incl. println/suspend/set_tab_width/finish/drop; MultiProgress histories with add/insert/remove, println/suspend/clear of bars and of the MultiProgress, finishes and drops); for each history the fault-free run, then for EVERY k below its number of TermLike calls (sampled above the cap) the runs 'only call k fails' and 'all calls from k on fail' on fresh objects; oracle: no panic, getters equal the fault-free twin after every op, mp.println/clear Err iff one of their own calls failed, final round of calls on every bar and the MultiProgress works, drops do not panic; a sample of the faulty runs is compared with the model (sys_check with fail_at/fail_from); the injected io::ErrorKind rotates through Interrupted/WouldBlock/BrokenPipe/Other/TimedOut/UnexpectedEof (recorded in the case text); per history and kind one run in which EVERY flush fails (>= 3 consecutive failing flushes); 36 real-time steady-ticker scenarios (terminal fails for a window, then recovers: frames must arrive again and a later inc must be painted); non-trivial = at least one failure was injected; distinct = distinct case text; plus the static audit of unwrap/expect/panic sites".into();
     audit_panic_sites(&mut s);
+    audit_index_arith_sites(&mut s);
     replay_nopanic_witnesses(&mut s);
     let mut r = Rng::new(a.seed);
     ticker_scenarios(&mut s, &mut r.fork(), if a.thorough { 120 } else { 36 });
@@ -491,7 +621,18 @@ fn main() {
         for (_, o) in &case.ops {
             s.count(&format!("op:{}", o.name()));
         }
-        s.case(coq_case(&case, &twin), describe(&case), false);
+        s.count(&format!("W:{}", case.w));
+        s.count(&format!("H:{}", case.h));
+        s.count(&format!("bars:{}", case.bars.len()));
+        // W = 0 is outside the domain of model/Sys.v (Text.v: wrapped_height divides by the width;
+        // the code computes ceil(cols / 0.0) = usize::MAX rows per non-empty line): such runs are
+        // evaluated by the oracle only (no panic, state, reporting, poisoning)
+        let in_model = case.w >= 1;
+        if in_model {
+            s.case(coq_case(&case, &twin), describe(&case), false);
+        } else {
+            s.oracle_only(describe(&case), false);
+        }
         // every k (capped), both fault modes
         let mut ks: Vec<u64> = (0..total.min(cap_k)).collect();
         for _ in 0..((total.saturating_sub(cap_k)).min(40)) {
@@ -511,7 +652,7 @@ fn main() {
             if let Some((class, detail)) = fr.bad {
                 s.fail(&class, format!("[error kind {:?}] {detail}", kind), desc.clone());
             }
-            if j == i % 6 {
+            if j == i % 6 && in_model {
                 s.case(coq_case(&c, &fr.obs), desc, fr.injected > 0);
             } else {
                 s.oracle_only(desc, fr.injected > 0);
@@ -551,7 +692,7 @@ fn main() {
         // correspondence sample: spread over k
         let step = (corr.len() / corr_per_hist).max(1);
         for (j, (c, o, nt, d)) in corr.into_iter().enumerate() {
-            if j % step == 0 {
+            if j % step == 0 && in_model {
                 s.case(coq_case(&c, &o), d, nt);
             } else {
                 s.oracle_only(d, nt);
